@@ -30,6 +30,10 @@ def alphabet(tier):
         {"s": "env", "op": "deliver", "m": "INBOX", "unseen": True},
         {"s": "env", "op": "deliver", "m": "INBOX", "unseen": False},
         {"s": "env", "op": "deliver", "m": "INBOX", "n": 2},
+        # a delivery within the second of the folder's mtime, one command, then the mtime advances
+        {"s": "env", "op": "latent", "m": "INBOX", "then": {"s": A, "op": "store", "set": "1", "mode": "+", "flags": "\\Flagged"}},
+        {"s": "env", "op": "latent", "m": "INBOX", "then": {"s": A, "op": "del", "set": "1"}},
+        {"s": "env", "op": "latent", "m": "INBOX", "unseen": False, "then": {"s": A, "op": "store", "set": "2", "mode": "-", "flags": "\\Seen"}},
         {"s": "env", "op": "deliver", "m": "other"},
         {"s": "env", "op": "tick", "m": "INBOX"},
         {"s": "env", "op": "poll", "dt": 21.0},
